@@ -194,11 +194,16 @@ Theorem discr_call_transparent :
 Proof. exact @disc_call_sound. Qed.
 Print Assumptions discr_call_transparent.
 
-(* reduce / accumulate / outer / at on discretized elements without out: same
-   store as NumPy; scalars and None are passed through; an array result is a
-   DiscretizedSpaceElement over NumPy's buffer with its shape and dtype whose
-   partition is self's (accumulate) resp. self's restricted to the axes the code
-   keeps (reduce). *)
+(* reduce / accumulate / outer / at on discretized elements without out: NumPy
+   on the underlying arrays returns too; scalars and None are passed through
+   (same store); an array result is a DiscretizedSpaceElement over NumPy's
+   buffer with its dtype, whose partition is self's (accumulate) resp. self's
+   restricted to the axes the code keeps (reduce).  Its shape is the buffer's
+   shape -- except that for reduce k unit axes may have been prepended
+   (np.array(..., ndmin=ndim) inside space.element); k = 0 means the final
+   store IS NumPy's store, and in every case at most the shape attribute of
+   that one buffer differs (same dtype, same numbers).  k > 0 only arises
+   from the negative-axis defect below. *)
 Theorem discr_method_transparent :
   forall (T : Type) (cast : dt -> dt -> T -> T) (NP : @npsem T) (st : @store T) (ds : dspace)
          (nout : nat) (m : meth) (ins : list (@operand T)) (kw : kwargs) (rins : list (@rop T))
@@ -207,15 +212,19 @@ Theorem discr_method_transparent :
   (outs = [] \/ outs = [None]) ->
   map_opt tens_unwrap (map to_tensor ins) = Some rins ->
   disc_ufunc cast NP st ds nout m ins kw outs = Ok (rets, st') ->
-  exists rr,
-    raw_ufunc cast NP st m (kw_drop_keepdims kw) rins (if is_at m then [] else [None]) = Ok ([rr], st')
+  exists rr st_raw,
+    raw_ufunc cast NP st m (kw_drop_keepdims kw) rins (if is_at m then [] else [None]) = Ok ([rr], st_raw)
+    /\ (st' = st_raw \/
+        exists id shp, st' = wr st_raw id (mkArr (a_dt (rd st_raw id)) shp (a_data (rd st_raw id))))
     /\ exists r, rets = [r] /\
        match rr with
-       | RRScal v => r = OpScal v
-       | RRNone => r = OpNone
+       | RRScal v => r = OpScal v /\ st' = st_raw
+       | RRNone => r = OpNone /\ st' = st_raw
        | RRBuf id =>
-           exists rs, r = OpDisc rs id
-             /\ ts_shape (ds_ts rs) = a_shape (rd st' id) /\ ts_dt (ds_ts rs) = a_dt (rd st' id)
+           exists rs k, r = OpDisc rs id
+             /\ ts_dt (ds_ts rs) = a_dt (rd st_raw id)
+             /\ ts_shape (ds_ts rs) = repeat 1%nat k ++ a_shape (rd st_raw id)
+             /\ (m <> MReduce -> k = 0%nat) /\ (k = 0%nat -> st' = st_raw)
              /\ (m = MAccumulate -> ds_axes rs = ds_axes ds)
              /\ (m = MReduce -> ds_axes rs = pick dummy_ax (ds_axes ds) (kept_axes (ndim ds) (kw_axis kw)))
        end.
